@@ -167,8 +167,8 @@ package jd
 //@ contract verifV1CLICheck
 //@   bounded
 //@   needs_cli
-//@   cap 400 4000
-//@   universe fi []int{0, 1, 2, 3, 4, 5, 6, 7}
+//@   cap 500 5000
+//@   universe fi []int{0, 1, 2, 3, 4, 5, 6, 7, 8, 9, 10}
 //@   requires validNode(a) && validNode(b)
 //@   ensures_bounded ret0 == ""
 //@   carries C14
@@ -184,6 +184,15 @@ package jd
 //@   requires validNode(a) && validNode(b)
 //@   ensures_bounded ret0 == ""
 //@   carries C14
+
+//@ contract verifV1Scale
+//@   bounded
+//@   universe a verifV1ScaleA()
+//@   universe b verifV1ScaleB()
+//@   zip a b
+//@   requires validNode(a) && validNode(b)
+//@   ensures_bounded ret0 == ""
+//@   carries C17 C18
 
 //@ contract verifV1RandMerge
 //@   bounded
